@@ -4,12 +4,29 @@
    run by the executable semantics: for the join forms a guided search for a schedule of the
    model that produces exactly the observed output sequence = trace inclusion).
 
-   line:  (hist KIND (NVAR GOMAXPROCS OUTERCAP) ((CAP ITEM ...) ...) ((OUT ...) ...) (CLOSED ...) PANIC LEAKED TIMEDOUT) *)
+   line:  (hist KIND (NVAR GOMAXPROCS OUTERCAP [ENV ROUNDS ORDER...]) ((CAP ITEM ...) ...) ((OUT ...) ...) (CLOSED ...) PANIC LEAKED TIMEDOUT)
+
+   ENV (absent = 0): the environment of the run (harness/internal/c19/drvsrc.go: start)
+     0  one independent producer per input                       (the environment of the theorems)
+     1  feeder: ONE goroutine hands every channel over, closes the outer channel and performs all sends
+        and closes in the order ORDER (j once per item of input j and once for its close)
+     3  lazy feeder: channel j is handed over just before the first operation on it
+     2  burst: the inputs are filled and closed before the call; ROUNDS rounds, the line is the first bad
+        round (else the last one)
+     4  burst: all the inputs are closed at a common start signal
+     5  producers ahead: the combinator is called when every producer is blocked on a full buffer
+     6  nil results (fmap to a channel type): the mapped function yields nil (reported as 0) for the items
+        divisible by 3; a nil result is an item like any other
+   The specification is the same in every environment.  The model of a feeder history is the expected IR
+   run against the feeder THREAD (Chan/Feeder.v: the same step function); a burst history is a run of the
+   independent-producer model (a particular schedule of it). *)
 From Coq Require Import FSets.FSetPositive.
-From Verif Require Import Base Sexp Chan.Sem Chan.Expected Chan.Explore.
+From Verif Require Import Base Sexp Chan.Sem Chan.Expected Chan.Explore Chan.Feeder.
 Open Scope string_scope.
 
 Definition f19 (x : nat) : nat := x + 1000.
+(* the mapped function of the nil-results environment: 0 stands for the nil channel *)
+Definition f19nil (x : nat) : nat := if Nat.eqb (Nat.modulo x 3) 0 then 0 else x + 1000.
 
 (* ---------- guided search: can the model deliver exactly [target] to consumer [ci]? ---------- *)
 Fixpoint is_prefix (a b : list nat) : bool :=
@@ -57,11 +74,19 @@ End Guided.
 
 (* Some true: the model has a complete run with this output; Some false: it has none;
    None: search budget exhausted *)
-Definition model_produces (k : kind) (d : fn) (cfg : config) (ci : nat) (target : list nat) : option bool :=
-  let r := gdfs (fn_progs d) ci target (100 * 100) (init_state k d cfg)
+Definition model_produces_from (P : list prog) (s0 : state) (ci : nat) (target : list nat) : option bool :=
+  let r := gdfs P ci target (100 * 100) s0
                 {| g_seen := PositiveSet.empty; g_found := false; g_budget := 100 * 200 |} in
   if g_found r then Some true else
   match g_budget r with O => None | _ => Some false end.
+
+Definition model_produces (k : kind) (d : fn) (cfg : config) (ci : nat) (target : list nat) : option bool :=
+  model_produces_from (fn_progs d) (init_state k d cfg) ci target.
+
+(* the same against the feeder thread *)
+Definition model_produces_feeder (k : kind) (d : fn) (cfg : config) (lazy : bool) (order : list nat)
+    (ci : nat) (target : list nat) : option bool :=
+  model_produces_from (feeder_progs k d cfg lazy order) (init_feeder k d cfg lazy order) ci target.
 
 (* ---------- parsing ---------- *)
 Definition get_nats (e : sexp) : option (list nat) := option_map (map Z.to_nat) (get_zs e).
@@ -82,6 +107,28 @@ Definition cls (n : nat) : string :=
   match n with 0 => "0" | 1 => "1" | 2 => "2" | 3 => "3" | _ => "4+" end%nat.
 Definition pcls (n : nat) : string :=
   match n with 1 => "P1" | 4 => "P4" | 16 => "P16" | _ => "P?" end%nat.
+Definition ecls (env : nat) : string :=
+  match env with 0 => "" | 1 => "/feeder" | 3 => "/lazy-feeder" | 2 => "/burst-closed-before"
+               | 4 => "/burst-closed-together" | 5 => "/producers-ahead" | 6 => "/nil-results"
+               | _ => "/env?" end%nat.
+
+(* the rest of the header after NVAR PROCS OUTER: (environment, rounds, feeding order) *)
+Definition get_env (rest : list nat) : option (nat * nat * list nat) :=
+  match rest with
+  | [] => Some (0, 1, [])
+  | env :: rounds :: order => Some (env, rounds, order)
+  | _ => None
+  end%nat.
+
+(* is the header consistent with its environment?  feeder: ORDER is a schedule of the inputs, one round;
+   burst: no order, at least one round; independent producers: nothing *)
+Definition env_ok (env rounds : nat) (order : list nat) (lists : list (list nat)) : bool :=
+  match env with
+  | 0 | 5 | 6 => Nat.eqb rounds 1 && Nat.eqb (List.length order) 0
+  | 1 | 3 => Nat.eqb rounds 1 && valid_order lists order
+  | 2 | 4 => Nat.leb 1 rounds && Nat.eqb (List.length order) 0
+  | _ => false
+  end%nat.
 
 Definition nats_sexp (l : list nat) : sexp := L (map of_nat l).
 
@@ -93,14 +140,18 @@ Definition eval19 (e : sexp) : verdict :=
       if negb (String.eqb h "hist") then bad_line else
       match get_nats hdr, map_opt get_input ins, map_opt get_nats outs, get_nats closed,
             get_nat pn, get_nat lk, get_nat tm with
-      | Some [nvar; procs; outer], Some inputs, Some os, Some cl, Some pnc, Some leak, Some tmo =>
+      | Some (nvar :: procs :: outer :: rest), Some inputs, Some os, Some cl, Some pnc, Some leak, Some tmo =>
+          match get_env rest with None => bad_line | Some (env, rounds, order) =>
           let lists := map snd inputs in
           let n := List.length inputs in
           let clean := Nat.eqb pnc 0 && Nat.eqb leak 0 && Nat.eqb tmo 0 && all_one cl
                        && Nat.eqb (List.length cl) (List.length os) in
-          let guard := nodup_nat (concat lists) && forallb (fun x => Nat.ltb x 1000) (concat lists) in
+          let guard := nodup_nat (concat lists) && forallb (fun x => Nat.ltb x 1000) (concat lists)
+                       && env_ok env rounds order lists in
+          let feeder := Nat.eqb env 1 || Nat.eqb env 3 in
           let cfg := {| c_inputs := inputs; c_outer := outer |} in
-          let tag := kd ++ "/n" ++ cls n ++ "/items" ++ cls (List.length (concat lists)) ++ "/" ++ pcls procs in
+          let tag := kd ++ "/n" ++ cls n ++ "/items" ++ cls (List.length (concat lists)) ++ "/" ++ pcls procs
+                     ++ ecls env in
           let mkv (spec model : bool) (m : sexp) (t : string) :=
             {| v_known := true; v_model_ok := model; v_spec_ok := spec; v_guard := guard;
                v_model := m; v_tag := t |} in
@@ -117,8 +168,10 @@ Definition eval19 (e : sexp) : verdict :=
             | [o] =>
                 let spec := clean && interleaved o lists in
                 let m := L [Sym "interleaving-of"; L (map nats_sexp lists)] in
-                if with_model && spec then
-                  match model_produces k d cfg ci o with
+                if with_model && spec && negb (Nat.leb n 48) then mkv spec spec m (tag ++ "/model-skipped-wide")
+                else if with_model && spec then
+                  match (if feeder then model_produces_feeder k d cfg (Nat.eqb env 3) order ci o
+                         else model_produces k d cfg ci o) with
                   | Some b => mkv spec b m (tag ++ "/model-trace")
                   | None => mkv spec spec m (tag ++ "/model-budget")
                   end
@@ -126,7 +179,10 @@ Definition eval19 (e : sexp) : verdict :=
             | _ => mkv false false (Sym "one-output") tag
             end in
           if String.eqb kd "fmap" then
-            match lists with [xs] => exact [map f19 xs] | _ => bad_line end
+            match lists with
+            | [xs] => exact [map (if Nat.eqb env 6 then f19nil else f19) xs]
+            | _ => bad_line
+            end
           else if String.eqb kd "dup" then
             match lists with [xs] => exact [xs; xs] | _ => bad_line end
           else if String.eqb kd "joincc" then join KJoinCC exp_join_cc 2%nat true
@@ -135,6 +191,7 @@ Definition eval19 (e : sexp) : verdict :=
             if Nat.eqb nvar n then join KJoinVar (exp_join_var n) (S n) true else bad_line
           else if String.eqb kd "pipeline" then join KJoinCC exp_join_cc 2%nat false
           else bad_line
+          end
       | _, _, _, _, _, _, _ => bad_line
       end
   | _ => bad_line
